@@ -5,7 +5,11 @@ execute_before_triggers / execute_after_triggers with the event and (OLD,NEW) sh
 or is one of the frozen sites dominated by a proof-of-absence guard; (b) each DML executor fires
 exactly one before/after statement-trigger pair, outside row loops; (c) the row entry points fire
 only ROW triggers, the statement ones only STATEMENT triggers, with the right timing, behind the
-recursion guard; (d) the stored trigger action text is written with a SQL Display, not Debug.
+recursion guard; (d) the stored trigger action text is written with a SQL Display, not Debug;
+(e) a proof-of-absence guard that lets a fast path skip trigger firing asks for the event of its executor and
+tests the unfiltered trigger list for emptiness; (f) in UPDATE and DELETE the BEFORE loop, the mutation and
+the AFTER loop range over the same rows (a derived vector is pushed on every iteration); (g) the compensation
+after a failed AFTER INSERT trigger removes the new row by position, not by content.
 Does NOT decide WHEN evaluation or OLD/NEW resolution."""
 from ..engine.callgraph import CallGraph
 from ..engine.paths import Precede, Follow, switch_target
